@@ -193,13 +193,7 @@ func checkSplit(c splitCase) (o pbt.Outcome) {
 	gt := trimAll(got)
 	if len(gt) != len(want) || (len(want) > 0 && !reflect.DeepEqual(gt, want)) {
 		detail := fmt.Sprintf("SplitStatementToPieces(%q) = %q; the statements are %q", text, got, want)
-		// C17-F1: the piece after the last separator is dropped when it is exactly
-		// one byte long (stmtBegin < blobTail is an off-by-one). Nothing else may differ.
-		if len(want) >= 1 && len(gt) == len(want)-1 && reflect.DeepEqual(gt, want[:len(gt):len(gt)]) &&
-			len(want[len(want)-1]) == 1 && strings.HasSuffix(text, ";"+want[len(want)-1]) {
-			o.Known, o.KnownWhat = "C17-F1", detail
-			return
-		}
+		// (fixed C17-F1: a one-byte piece after the last separator used to be dropped)
 		o.Violation = detail
 	}
 	return
